@@ -65,8 +65,12 @@ def c05(chk):
             stagger = 0 if len(bgd) == 2 else rng.choice([60, 90, 99, 100, 101, 110, 130]) if i >= (16 if quick else 100) else rng.randrange(85, 104)
             if i < (16 if quick else 100):
                 delay, jitter = rng.choice([100, 1000, 5000]), 0
+        # in a fifth of the plain runs one of the two nodes has a connection limit of 1, which this very pair fills: one of the
+        # dials may then be refused, but the pair must still end with one shared connection
+        lim = rng.choice([0, 1]) if not real and not bgd and rng.random() < 0.25 else None
+        mc = lambda i: " maxconn=1" if lim == i else ""
         cmds = ["seed=%d real=1" % rng.randrange(1 << 30) if real else "seed=%d delay=%d jitter=%d" % (rng.randrange(1 << 30), delay, jitter),
-                "node 0 key=%d%s" % (k0, " ctick=100 ctimeout=2000" if bgd else ""), "node 1 key=%d%s" % (k1, " ctick=100 ctimeout=2000" if bgd else ""), "idlt 0 1"]
+                "node 0 key=%d%s%s" % (k0, " ctick=100 ctimeout=2000" if bgd else "", mc(0)), "node 1 key=%d%s%s" % (k1, " ctick=100 ctimeout=2000" if bgd else "", mc(1)), "idlt 0 1"]
         if bgd:
             cmds.append("sleep 1")     # the managers start and take their first (immediate) tick; the next ones come at 100 ms, 200 ms, ...
         cmds += [first]
@@ -115,7 +119,12 @@ def c05(chk):
         ja, jb = r.get("join a", ["ok 1"])[0], r.get("join b", ["ok 0"])[0]
         if "join a" not in r or "join b" not in r:
             chk.count("mutual-dial-with-background-dial")
-        if not ja.startswith("ok 1") or not jb.startswith("ok 0"):
+        limited = " maxconn=1" in sc
+        if limited:
+            chk.count("mutual-dial-with-a-connection-limit-of-1")
+        if limited and (ja.startswith("ok 1") or jb.startswith("ok 0")) and not (ja.startswith("ok") and not ja.startswith("ok 1")) and not (jb.startswith("ok") and not jb.startswith("ok 0")):
+            pass          # one of the two dials may be refused by the limit
+        elif not ja.startswith("ok 1") or not jb.startswith("ok 0"):
             chk.monitor_fail("a simultaneous dial failed or returned the wrong identity: %s / %s" % (ja, jb), dict(case=sc, impl=o[:800]))
             continue
         if r["peers 0"] != ["[1]", "[1]"] or r["peers 1"] != ["[0]", "[0]"]:
@@ -151,6 +160,8 @@ def c05(chk):
         want0 = "in" if lt else "out"
         # a background dial is not made when the peer is already connected by then: with a single connection there is no tie to break
         adds = len(re.findall(r"active,inst=[0-9a-fx]+,add,", res[-1]))
+        if limited:
+            continue      # which of the two survives may be decided by the limit, not by the tie-break
         if adds < 4:
             chk.count("second-dial-not-made (peer already connected)")
             if o0 == o1:
@@ -859,6 +870,10 @@ def adversary_scenarios(chk, n, tag):
                 "rpc 2 1 id=probe size=10",
                 "connect 2 1", "sleep 300", "peers 2", "rpc 2 1 id=real size=10", "log 1",
                 "events 2"]
+        # overlapping dials to one address, one of them naming identity 1 (which is not there): each dial is judged on its own
+        cmds += ["node 4 key=%d name=n%d" % (V + 3, name), "bg ov1 connect 2 4", "connect 2 4 pin=1", "join ov1", "sleep 300",
+                 "node 5 key=%d name=n%d" % (V + 4, name), "bg ov2 connect 2 5 pin=1", "connect 2 5", "join ov2", "sleep 300",
+                 "node 6 key=%d name=n%d" % (V + 5, name), "bg ov3 connect 2 6 pin=6", "connect 2 6 pin=1", "join ov3", "sleep 300", "peers 2"]
         # messages that name another identity: node 3 (authenticated as itself) calls node 2, and node 2 calls node 3, with
         # headers carrying node 1's PeerId under many names (the handler copies them into its answer): the handler must
         # still see the authenticated caller and the caller the authenticated callee
@@ -887,6 +902,10 @@ def adversary_scenarios(chk, n, tag):
                 chk.monitor_fail("[%s] %s was listed as identity 1 at node 2 (step %d)" % (label, "the adversary" if k < 3 else "another party", k), dict(case=sc, impl=o[:1200]))
         if r["connect 2 3 pin=1"][0].startswith("ok") or not r["connect 2 3 pin=3"][0].startswith("ok 3"):
             chk.monitor_fail("[%s] dials to node 3's address: pinned to 3 -> %s, then pinned to 1 -> %s" % (label, r["connect 2 3 pin=3"][0][:40], r["connect 2 3 pin=1"][0][:40]), dict(case=sc, impl=o[:1200]))
+        for plain, pinned in (("join ov1", "connect 2 4 pin=1"), ("connect 2 5", "join ov2"), ("join ov3", "connect 2 6 pin=1")):
+            chk.count("overlapping-dials-to-one-address")
+            if r[pinned][0].startswith("ok") or not r[plain][0].startswith("ok"):
+                chk.monitor_fail("[%s] two overlapping dials to one address: the one naming identity 1 (not there) -> %s, the other -> %s" % (label, r[pinned][0][:40], r[plain][0][:40]), dict(case=sc, impl=o[:1500]))
         if r["connect 2 8 pin=1"][0].startswith("ok"):
             chk.monitor_fail("[%s] a dial pinned to identity 1 succeeded against the adversary" % label, dict(case=sc, impl=o[:1200]))
         if r["connect 2 8"][0].startswith("ok 1"):
@@ -1663,6 +1682,54 @@ def c11(chk):
         holds = [x for c, x in zip(cl, res) if c.startswith("join hold")]
         if not all(x.startswith("ok st=200") for x in holds) or not res[-1].startswith("ok st=200"):
             chk.monitor_fail("the calls holding the streams or the follow-up call failed: %s / %s" % ([x[:30] for x in holds], res[-1][:40]), dict(case=sc))
+
+
+def c11_raw(chk):
+    """The serving side enforces min(its inbound default, the request's timeout header) on its own: a caller that is not
+    anemo's client (a raw, properly authenticated peer that sets the header and simply waits) is answered RequestTimeout at
+    that deadline, or normally when the handler is faster."""
+    quick = chk.tier == "quick"
+    MS = 1000000
+    scen, metas = [], []
+    for i in range(12 if quick else 120):
+        rng = chk.rng
+        in_to = rng.choice([None, None, None, 100, 300, 1000])
+        hv = rng.choice([None, 50, 200, 600, 2000]) if i % 3 else rng.choice([50, 200, 600])
+        h = rng.choice([10, 60, 150, 250, 400, 800, 1500, 3000])
+        e_in = min([x for x in (in_to, hv) if x is not None], default=None)
+        if e_in is not None and abs(e_in - h) < 15:
+            continue
+        hs = [(b"id", b"raw"), (b"sleep-ms", str(h).encode())] + ([(b"timeout", str(hv * MS).encode())] if hv is not None else [])
+        cmds = ["seed=%d delay=1000" % rng.randrange(1 << 30),
+                "node 1 key=1 name=n10 idle=600000 keepalive=5000" + (" in_to=%d" % in_to if in_to else ""),
+                "adv 8 k=7 names=n10", "advdial 8 1 sni=n10", "sleep 300",
+                "advop 8 1 bi:%s:finish" % req_bytes(b"/echo", hs, b"hello").hex(), "sleep 50", "stat 1"]
+        scen.append("simnet " + " ; ".join(cmds))
+        metas.append((in_to, hv, h, e_in))
+    outs, parsed = run_scenarios(chk, scen, "fabric:deadline-raw-caller")
+    # Timeout.v: the serving side alone (no outbound default, the header as sent)
+    models = ["trpc none %s %s %d %d %d" % ("none" if in_to is None else str(in_to * MS), "none" if hv is None else str(hv * MS).encode().hex(), h * MS, 1 * MS, 1 * MS) for in_to, hv, h, e_in in metas]
+    for sc, res, (in_to, hv, h, e_in), mo in zip(scen, parsed, metas, run_model(models)):
+        if res is None:
+            continue
+        chk.nontriv(sc)
+        r = res[4]
+        f = fields(r) if r.startswith("answered") else {}
+        el = int(f.get("t", 0)) / 1000.0
+        cut = e_in is not None and e_in < h
+        chk.count("raw-caller:" + ("cut-off" if cut else "served"))
+        want_st, want_t = ("408", e_in + 2) if cut else ("200", h + 2)
+        if not r.startswith("answered") or f.get("st") != want_st or abs(el - want_t) > 8:
+            chk.monitor_fail("serving side (inbound default %s, timeout header %s ms, handler %d ms) answered a raw caller with %s after %.1f ms; the deadline min(default, header) requires status %s after about %d ms"
+                             % (in_to, hv, h, r[:40], el, want_st, want_t), dict(case=sc, impl=r))
+            continue
+        st = fields(res[6])
+        if cut and int(st["dropped"]) != 1:
+            chk.monitor_fail("the handler of a request cut off at the serving side's deadline was not dropped (%s)" % res[6], dict(case=sc))
+        # the model's view of the same call (a caller without a deadline of its own sees status 408 / the response)
+        mk = mo.split()[0]
+        if mk not in ("unspecified",) and mk != ("status408" if cut else "response") and hv is None:
+            chk.disagree(sc, "status %s" % want_st, "Timeout.v: " + mo, "simnet/deadline-raw")
 
 
 def hdr_size_req(route, headers):
